@@ -222,10 +222,10 @@ func checkC18(r *harness.Run) harness.Coverage {
 		maxW = 4
 	}
 	f := &univ.Fragment{
-		Idents: univ.Tks("L", "P", "Ls", "Ps", "Strs", "Nums", "Next", "S", "N", "B", "Name"),
-		Leaves: univ.Tks("@"),
-		Nums:   univ.Tks("0", "-1", "1", "-3", "2"),
-		Slices: [][]model.Tok{univ.Tks(":", ":", "-1"), univ.Tks("1", ":")},
+		Idents:  univ.Tks("L", "P", "Ls", "Ps", "Strs", "Nums", "Next", "S", "N", "B", "Name"),
+		Leaves:  univ.Tks("@"),
+		Nums:    univ.Tks("0", "-1", "1", "-3", "2"),
+		Slices:  [][]model.Tok{univ.Tks(":", ":", "-1"), univ.Tks("1", ":")},
 		WildIdx: true, Flatten: true, Filter: true, Dot: true, Pipe: true, Or: true, And: true, Not: true,
 		MaxList: 2, MaxHash: 1,
 		Weight: univ.StructuralWeight,
